@@ -5,6 +5,7 @@ use super::queue_state::*;
 use super::wake_thread::*;
 
 use std::fmt;
+use std::sync::atomic;
 #[cfg(not(desync_verif))]
 use std::sync::*;
 #[cfg(desync_verif)]
@@ -47,8 +48,9 @@ pub (super) struct JobQueueCore {
     /// The current state of this queue
     pub (super) state: QueueState,
 
-    /// If something is blocked on this queue, a condition variable to wake it up
-    pub (super) wake_blocked: Vec<Weak<Condvar>>,
+    /// If something is blocked on this queue, a condition variable to wake it up, the mutex it waits with and a flag that
+    /// records that the queue was rescheduled since the waiter last looked (so a wake-up is never lost)
+    pub (super) wake_blocked: Vec<(Weak<Condvar>, Weak<Mutex<bool>>, Arc<atomic::AtomicBool>)>,
 }
 
 impl fmt::Debug for JobQueue {
